@@ -37,8 +37,19 @@ def isExec : Val → Bool
 /-- the string consists of white space only (`empty$`: "missing, empty or white space only") -/
 def Blank (x : Str) : Prop := ∀ c ∈ x, isWs c = true
 
+instance (x : Str) : Decidable (Blank x) := inferInstanceAs (Decidable (∀ c ∈ x, isWs c = true))
+
+/-- what `top$` / `stack$` print for a value: the decimal representation of an integer, a
+string as it is (a missing field as the empty string) -/
+def shown : Val → Str
+  | .int n => (toString n).toList
+  | .str x => x
+  | _ => []
+
 /-- the characters after which `add.period$` adds nothing -/
 def EndsSentence (c : Char) : Prop := c = '.' ∨ c = '?' ∨ c = '!'
+
+instance (c : Char) : Decidable (EndsSentence c) := inferInstanceAs (Decidable (c = '.' ∨ c = '?' ∨ c = '!'))
 
 /-- the conversion letter of `change.case$` (`t`itle, `l`ower, `u`pper; the caller lower-cases
 the first character of the mode string) -/
